@@ -101,12 +101,12 @@ class Result:
     def decide(self, cond: bool, rule, where, func, construct, detail=""):
         return self.add(rule, where, func, construct, DISCHARGED if cond else VIOLATED, detail)
 
-    def adopt(self, other: "Result", rules, as_rule: str, why: str) -> int:
+    def adopt(self, other: "Result", rules, as_rule: str, why: str, keep=None) -> int:
         """Take over the obligations of `rules` decided by another property's check under the rule `as_rule` of this
         property (a mechanism owned by one property that is a necessary condition of this one as well)."""
         n = 0
         for o in other.obligations:
-            if o.rule in rules:
+            if o.rule in rules and (keep is None or keep(o)):
                 self.add(as_rule, o.where, o.func, f"[{other.prop} {o.rule}] {o.construct}", o.status,
                          (o.detail + " -- " if o.detail else "") + why, o.trivial)
                 n += 1
